@@ -341,6 +341,18 @@ def r4_recording_robust(ctx, sym):
     fmod = ctx.repo.module(FEEDBACKS)
     rt_init = fmod.func('runtime_error.__init__')
     work = [(Callee(mod, start, sandbox_cls, 'method'), frozenset(['exception']), 0)]
+    # the feedback object built from the exception holds it in its fields, and Feedback.__repr__ reprs every field:
+    # converting the feedback object while it is being filed is a conversion of the student's exception as well
+    rmod_ = ctx.repo.module('pedal.core.report')
+    report_cls = sym.find_class('pedal.core.report', 'Report')
+    for q_ in ('Report.add_feedback', 'Report.add_ignored_feedback'):
+        if rmod_.has_func(q_):
+            work.append((Callee(rmod_, rmod_.func(q_), report_cls, 'method'), frozenset(['feedback']), 0))
+    fbmod_ = ctx.repo.module('pedal.core.feedback')
+    feedback_cls = sym.find_class('pedal.core.feedback', 'Feedback')
+    if fbmod_.has_func('Feedback._handle_condition'):
+        work.append((Callee(fbmod_, fbmod_.func('Feedback._handle_condition'), feedback_cls, 'method'),
+                     frozenset(['self']), 0))
     seen = set()
     n_conv = 0
     n_fns = 0
